@@ -9,7 +9,7 @@ from .core import AnalysisBroken, Program
 from . import extract
 
 VERIF = os.path.dirname(os.path.dirname(os.path.abspath(__file__)))
-EVID = os.path.join(VERIF, "evidence")
+EVID = os.environ.get("VERIF_EVIDENCE") or os.path.join(VERIF, "evidence")  # selftest redirects it
 KNOWN = os.path.join(VERIF, "known_findings.json")
 
 
@@ -126,6 +126,8 @@ def run_property(prop_id, module, tier="quick", configs=None, replay=None):
         except AnalysisBroken as e:
             broken.append("[%s] %s" % (cfg, e))
         for r in ctx.rules:
+            for fd in r.findings:
+                fd.rule = r.id  # rules shared between properties are renamed by the borrowing module
             if r.obligations < r.floor:
                 broken.append("[%s] rule %s matched %d instances, floor is %d (anchor vanished or matcher broken)"
                               % (cfg, r.id, r.obligations, r.floor))
